@@ -1658,6 +1658,19 @@ func parseOpenSSHPrivateKey(key []byte, decrypt openSSHDecryptFunc) (crypto.Priv
 		return nil, errors.New("ssh: malformed OpenSSH key")
 	}
 
+	// The public key stored outside the encrypted section must be the public
+	// key of the private key.
+	checkEnvelope := func(pub crypto.PublicKey) error {
+		sshPub, err := NewPublicKey(pub)
+		if err != nil {
+			return err
+		}
+		if !bytes.Equal(sshPub.Marshal(), w.PubKey) {
+			return errors.New("ssh: public key does not match private key")
+		}
+		return nil
+	}
+
 	switch pk1.Keytype {
 	case KeyAlgoRSA:
 		var key openSSHRSAPrivateKey
@@ -1702,6 +1715,9 @@ func parseOpenSSHPrivateKey(key []byte, decrypt openSSHDecryptFunc) (crypto.Priv
 
 		pk.Precompute()
 
+		if err := checkEnvelope(&pk.PublicKey); err != nil {
+			return nil, err
+		}
 		return pk, nil
 	case KeyAlgoED25519:
 		var key openSSHEd25519PrivateKey
@@ -1717,8 +1733,13 @@ func parseOpenSSHPrivateKey(key []byte, decrypt openSSHDecryptFunc) (crypto.Priv
 			return nil, err
 		}
 
-		pk := ed25519.PrivateKey(make([]byte, ed25519.PrivateKeySize))
-		copy(pk, key.Priv)
+		pk := ed25519.NewKeyFromSeed(key.Priv[:ed25519.SeedSize])
+		if !bytes.Equal(pk, key.Priv) || !bytes.Equal(pk[ed25519.SeedSize:], key.Pub) {
+			return nil, errors.New("ssh: public key does not match private key")
+		}
+		if err := checkEnvelope(pk.Public()); err != nil {
+			return nil, err
+		}
 		return &pk, nil
 	case KeyAlgoECDSA256, KeyAlgoECDSA384, KeyAlgoECDSA521:
 		var key openSSHECDSAPrivateKey
@@ -1756,14 +1777,18 @@ func parseOpenSSHPrivateKey(key []byte, decrypt openSSHDecryptFunc) (crypto.Priv
 			return nil, errors.New("ssh: public key does not match private key")
 		}
 
-		return &ecdsa.PrivateKey{
+		pk := &ecdsa.PrivateKey{
 			PublicKey: ecdsa.PublicKey{
 				Curve: curve,
 				X:     X,
 				Y:     Y,
 			},
 			D: key.D,
-		}, nil
+		}
+		if err := checkEnvelope(&pk.PublicKey); err != nil {
+			return nil, err
+		}
+		return pk, nil
 	default:
 		return nil, errors.New("ssh: unhandled key type")
 	}
